@@ -179,6 +179,21 @@ class C11Bounded(Bounded):
             want = ['a=1 and not u="adm"', 'b=2 and not u="adm"']
             if sorted(got) != sorted(want):
                 fail("global+filter", f"a stream rule / global document (product windows) / rule / filter on category c via {route}: {got}, expected both rules narrowed by the filter: {want}", [route])
+        # a global document that carries the whole detection section, rules without their own, and a repeated rule that ADDS a detection: the
+        # added detection belongs to the repeated rule only - every selector ranges over exactly the detections its rule was written with
+        tdocs2 = [{"action": "global", "logsource": {"category": "c"}, "detection": {"sel_a": {"a": 1}, "condition": "1 of sel_*"}},
+                  {"title": "r1", "name": "r1"}, {"action": "repeat", "title": "r2", "name": "r2", "detection": {"sel_b": {"b": 2}}}, {"title": "r3", "name": "r3"}, {"title": "r4", "name": "r4", "detection": {"sel_c": {"c": 3}}}]
+        import yaml as _y2
+        for route, load in (("from_dicts", lambda: SigmaCollection.from_dicts(copy.deepcopy(tdocs2))), ("from_yaml", lambda: SigmaCollection.from_yaml("---\n".join(_y2.safe_dump(d) for d in tdocs2)))):
+            ev += 1
+            nontriv += 1
+            try:
+                got = b().convert(load())
+            except Exception as e:
+                got = [f"{type(e).__name__}: {e}"]
+            want = ["a=1", "a=1 or b=2", "a=1", "a=1 or c=3"]
+            if [" or ".join(sorted(q.strip("()").split(" or "))) for q in got] != want:
+                fail("global+repeat", f"global document with the detection section, rules r1, r2 (repeat, adds sel_b), r3, r4 (adds sel_c) via {route}: {got}, expected {want}", [route])
         # a rule built with the constructor (id given as text) is found by a filter that names its id; a filter whose log source has an
         # EMPTY text for an attribute covers only rules with that empty text
         import dataclasses
